@@ -292,17 +292,6 @@ def confirm(v, real):
 def classify(v):
     w = v["what"]; fam = v.get("family", "")
     if "panic" in w[:20]: return "panic"
-    if v.get("kind") == "dedup-leaves-shapes":
-        import c04
-        if "paths1" not in real: return False
-        groups = c04.expected_groups(reg); gid = {}
-        for p, gs in groups.items():
-            for k, g in enumerate(gs):
-                for i in g: gid[i] = (p, k)
-        under = {}
-        for i, p in enumerate(real["paths1"].split(",")):
-            if i in gid: under.setdefault(p, set()).add(gid[i])
-        return any(len(s) > 1 for s in under.values())
     if v.get("kind") == "other-error": return "other-error"
     if v.get("kind") == "dedup-leaves-shapes": return "dedup-leaves-shapes:" + fam.rsplit("-o", 1)[0]
     if "index" in w and ("variant" in fam or "versions" in fam or "index" in fam): return "variant-index-not-compared"
